@@ -21,7 +21,7 @@ ASSUMPTIONS = ["bitmap canvases in generated inputs are limited to 512x512 so th
 
 A_LINES, C_LINES = 600, 60000
 B_MEM, M_MEM = 96, 2 << 20
-TIMEOUT_S = 25        # CPU seconds of this worker (ITIMER_VIRTUAL): immune to machine load
+TIMEOUT_S = 60        # CPU seconds of this worker (ITIMER_VIRTUAL): immune to machine load
 FILES = REPO / "tests" / "files"
 
 
